@@ -89,14 +89,16 @@ Proof.
   destruct (negb (compatible (cver s) v)); [inv H; constructor|].
   destruct (dup_addr s (p_id p) (p_addr p)) eqn:Edup; [inv H; constructor|].
   destruct (sv s (p_id p)) as [old|] eqn:Eold.
-  - match type of H with context [put_locked ?a ?b ?c ?d ?e] => destruct (put_locked a b c d e) as [s1 ok] eqn:Epl end.
+  - match type of H with context [labels_rejected ?a ?b] => destruct (labels_rejected a b) end; [inv H; constructor|].
+    match type of H with context [put_locked ?a ?b ?c ?d ?e] => destruct (put_locked a b c d e) as [s1 ok] eqn:Epl end.
     inv H. rewrite (put_locked_sv _ _ _ _ _ _ _ Epl j).
     zeq (p_id p) j; [|rewrite andb_false_r; constructor].
     rewrite Eold, andb_true_r. destruct ok; [|constructor].
     destruct Ho as [Ho|[x [Hx Ha]]].
     + apply ch_readdr; auto.
     + inv Hx. apply ch_keep; auto.
-  - match type of H with context [put_locked ?a ?b ?c ?d ?e] => destruct (put_locked a b c d e) as [s1 ok] eqn:Epl end.
+  - match type of H with context [labels_rejected ?a ?b] => destruct (labels_rejected a b) end; [inv H; constructor|].
+    match type of H with context [put_locked ?a ?b ?c ?d ?e] => destruct (put_locked a b c d e) as [s1 ok] eqn:Epl end.
     inv H. rewrite (put_locked_sv _ _ _ _ _ _ _ Epl j).
     zeq (p_id p) j; [|rewrite andb_false_r; constructor].
     rewrite Eold, andb_true_r. destruct ok; [|constructor].
@@ -334,11 +336,12 @@ Qed.
 (* ---------- the characterisation: every command, every store id ---------- *)
 Theorem run_cmd_change s o s' r : run_cmd s o = (s', r) -> forall j, change s o j (sv s j) (sv s' j).
 Proof.
-  destruct o as [g p f|id ls force f|id pd f|id f|id f|corder f|id lw rw f|order f|id f|rg stores]; cbn [run_cmd]; intros H.
+  destruct o as [g p f|id ls force f|id pd f|id f|id f|corder f|id lw rw f|order f|id f|rg stores|e]; cbn [run_cmd]; intros H.
   - destruct g.
-    + destruct (sv s (p_id p)) as [x|] eqn:E.
-      * destruct (is_tomb x); [inv H; constructor|]. eapply do_put_change; eauto.
-      * eapply do_put_change; eauto.
+    + cbv zeta in H. destruct (sv s (p_id p)) as [x|] eqn:E.
+      * destruct (is_tomb x); [inv H; constructor|].
+        destruct (negb (e_pr (cenv s)) && is_tiflash (p_labels p))%bool; [inv H; constructor|]. eapply do_put_change; eauto.
+      * destruct (negb (e_pr (cenv s)) && is_tiflash (p_labels p))%bool; [inv H; constructor|]. eapply do_put_change; eauto.
     + eapply do_put_change; eauto.
   - eapply do_labels_change; eauto.
   - eapply do_remove_change; eauto.
@@ -349,6 +352,7 @@ Proof.
   - eapply do_clean_change; eauto.
   - eapply do_heartbeat_change; eauto.
   - inv H. intros j. apply same_life_change, do_region_life.
+  - inv H. intros j. constructor.
 Qed.
 
 (* ---------- statement 1: the lifecycle is one-way ---------- *)
